@@ -122,6 +122,7 @@ def lexrun(seed, tier, log=print, extra_modes=('p',)):
         feeds[i] = fl
         for (t, S) in fl:
             freqs.append('%d f%s %s' % (i, t, P.hexs(S)))
+            freqs.append('%d r%s %s' % (i, t, P.hexs(S)))      # the same schedule fed by re-slicing (Reslice.feedR)
     treqs = []
     for i in accepted:
         for b in inputs[i][:: max(1, len(inputs[i]) // 300)]:
@@ -162,6 +163,7 @@ def lexrun(seed, tier, log=print, extra_modes=('p',)):
             lines.append('Q PSPEC ' + P.hexs(b))
         for (t, S) in feeds.get(i, []):
             lines.append('Q FEED %s %s' % (t, P.hexs(S)))
+            lines.append('Q FEEDR %s %s' % (t, P.hexs(S)))
         for b in inputs[i][:: max(1, len(inputs[i]) // 300)]:
             lines.append('Q LEX t ' + P.hexs(b))
         for b in cin.get(i, []):
